@@ -38,7 +38,10 @@ Ry(k) == <<<<CQ(k), 0, SQ(k)>>, <<0, 1, 0>>, <<0 - SQ(k), 0, CQ(k)>>>>
 EulerMatrix(r, p, h) == MMul(Rz(h), MMul(Ry(p), Rx(r)))
 ExpAxis(k, q) == CASE k = 1 -> Rx(q) [] k = 2 -> Ry(q) [] OTHER -> Rz(q)
 Perm == <<<<0, 0, 1>>, <<1, 0, 0>>, <<0, 1, 0>>>>                      \* e1 -> e2 -> e3 -> e1
-ExpDiag(s) == [i \in 1..3 |-> [j \in 1..3 |-> s[i] * s[j] * Perm[i][j]]]   \* a third of a turn about (s1, s2, s3)/sqrt 3
+\* a third of a turn (+120 degrees, right-handed) about (s1, s2, s3)/sqrt 3: conjugating the cyclic permutation by the reflection
+\* diag(s) keeps the axis but reverses the sense when an odd number of signs is negative
+ExpDiag(s) == IF s[1] * s[2] * s[3] = 1 THEN [i \in 1..3 |-> [j \in 1..3 |-> s[i] * s[j] * Perm[i][j]]]
+              ELSE [i \in 1..3 |-> [j \in 1..3 |-> s[i] * s[j] * Perm[j][i]]]
 Det3(M) == M[1][1] * (M[2][2] * M[3][3] - M[2][3] * M[3][2]) - M[1][2] * (M[2][1] * M[3][3] - M[2][3] * M[3][1])
            + M[1][3] * (M[2][1] * M[3][2] - M[2][2] * M[3][1])
 IsProper(M) == MMul(M, Tr(M)) = I3 /\ Det3(M) = 1
@@ -48,10 +51,9 @@ Atan2Q(y, x) == CASE x = 1 /\ y = 0 -> 0 [] x = 0 /\ y = 1 -> 1 [] x = -1 /\ y =
 AsinQ(s) == CASE s = 0 -> 0 [] s = 1 -> 1 [] OTHER -> 3
 RphOf(M) == <<Atan2Q(M[3][2], M[3][3]), AsinQ(0 - M[3][1]), Atan2Q(M[2][1], M[1][1])>>
 
-Signs == {<<s1, s2, s3>> : s1 \in {-1, 1}, s2 \in {-1, 1}, s3 \in {-1, 1}}
 Init == \/ kind = "rph" /\ a \in 0..3 /\ b \in 0..3 /\ c \in 0..3 /\ emitted = 0
         \/ kind = "axis" /\ a \in 1..3 /\ b \in 0..3 /\ c = 0 /\ emitted = 0
-        \/ kind = "diag" /\ <<a, b, c>> \in Signs /\ emitted = 0
+        \/ kind = "diag" /\ a \in {-1, 1} /\ b \in {-1, 1} /\ c \in {-1, 1} /\ emitted = 0
 M == CASE kind = "rph" -> EulerMatrix(a, b, c) [] kind = "axis" -> ExpAxis(a, b) [] OTHER -> ExpDiag(<<a, b, c>>)
 Emit == /\ emitted = 0 /\ emitted' = 1
         /\ PrintT(<<"ATT", kind, a, b, c, M, IF kind = "rph" /\ CQ(b) # 0 THEN RphOf(M) ELSE <<>>>>)
@@ -74,5 +76,9 @@ RoundTrip == (kind = "rph" /\ CQ(b) # 0) =>
                  /\ (b = 2 => g = <<(a + 2) % 4, 0, (c + 2) % 4>>)
 EulerIsAxisProduct == kind = "rph" => M = MMul(ExpAxis(3, c), MMul(ExpAxis(2, b), ExpAxis(1, a)))
 ExpAxisGroupLaw == kind = "axis" => \A q \in 0..3 : MMul(ExpAxis(a, b), ExpAxis(a, q)) = ExpAxis(a, (b + q) % 4)
+\* right-handed sense: (u x R u) . axis > 0 for a vector u off the axis
+Unit(k) == [i \in 1..3 |-> IF i = k THEN 1 ELSE 0]
+Sense == /\ kind = "diag" => Dot(Cross(Unit(1), MVec(M, Unit(1))), <<a, b, c>>) > 0
+         /\ (kind = "axis" /\ b = 1) => Dot(Cross(Unit((a % 3) + 1), MVec(M, Unit((a % 3) + 1))), Unit(a)) > 0
 DiagCubed == kind = "diag" => MMul(M, MMul(M, M)) = I3 /\ MVec(M, <<a, b, c>>) = <<a, b, c>>    \* the axis is fixed
 =============================================================================
